@@ -183,7 +183,7 @@ class World:
         except Exception as e:
             exc = type(e).__name__
             extra = dict(msg=str(e)[:200])
-        obs = dict(exc=exc, Hnet0=0, Hnet1=0, dH=0)
+        obs = dict(exc=exc, Hnet0=0, Hnet1=0, dH=0, scaled_dT=0)
         obs.update(extra)
         return obs
 
@@ -209,6 +209,21 @@ class World:
             else:
                 self.rs = (tmo.ParallelReaction if st['kind'] == 'parallel' else tmo.SeriesReaction)(rx)
             self.rs_rec = st
+            # member objects obtained when the set was built (queried again after later changes)
+            self.held = [self.rs[j] for j in range(len(rx))] if st['kind'] in ('parallel', 'series') else []
+            return
+        if op == 'set_X':
+            k, j, v = self.rs_rec['kind'], a['j'] - 1, a['X'][0] / a['X'][1]
+            if k == 'single':
+                self.rs.X = v
+            elif k == 'system':
+                self.rs.reactions[j].X = v
+            elif a.get('via') == 'set':
+                self.rs.X[j] = v
+            elif a.get('via') == 'held' and getattr(self, 'held', None):
+                self.held[j].X = v
+            else:
+                self.rs[j].X = v
             return
         if op == 'set_Hf':
             self.th.chemicals.tuple[a['i'] - 1].Hf = float(a['v'])
@@ -216,7 +231,10 @@ class World:
             return
         if op == 'dH':
             k = self.rs_rec['kind']
-            v = self.rs.dH if k == 'single' else (self.rs.reactions[a['j'] - 1].dH if k == 'system' else self.rs[a['j'] - 1].dH)
+            if a.get('held') and k in ('parallel', 'series') and getattr(self, 'held', None):
+                v = self.held[a['j'] - 1].dH
+            else:
+                v = self.rs.dH if k == 'single' else (self.rs.reactions[a['j'] - 1].dH if k == 'system' else self.rs[a['j'] - 1].dH)
             if np.ndim(v) != 0:
                 raise TypeError('dH is not a scalar: %r' % (v,))
             return dict(dH=fx3(v))
@@ -225,9 +243,23 @@ class World:
             H0 = s.Hnet
             if op == 'react':
                 self.rs(s)
+                return dict(Hnet0=fx3(H0), Hnet1=fx3(s.Hnet))
+            # the same reaction on the same material scaled by 2^-30 (heat input scaled alike) must end at the same temperature:
+            # the balance is extensive (the fixed-point ledger cannot see enthalpy flows that small)
+            k = 2. ** -30
+            c = s.copy()
+            if isinstance(c, tmo.MultiStream):
+                for ph in c.phases:
+                    c.imol[ph] = np.asarray(s.imol[ph].to_array() if hasattr(s.imol[ph], 'to_array') else s.imol[ph]) * k
             else:
-                self.rs.adiabatic_reaction(s, Q=float(a['Q']))
-            return dict(Hnet0=fx3(H0), Hnet1=fx3(s.Hnet))
+                c.mol[:] = s.mol.to_array() * k
+            self.rs.adiabatic_reaction(s, Q=float(a['Q']))
+            try:
+                self.rs.adiabatic_reaction(c, Q=float(a['Q']) * k)
+                dT = int(min(abs(c.T - s.T) * 1e6, 2 ** 30))
+            except Exception:
+                dT = 2 ** 30
+            return dict(Hnet0=fx3(H0), Hnet1=fx3(s.Hnet), scaled_dT=dT)
         raise KeyError(op)
 
 
